@@ -12,8 +12,8 @@ from .c09 import finish
 
 KINDS = {
     'C01': ['flat', 'flat', 'multi', 'nested'],
-    'C02': ['flat', 'multi', 'nested', 'nested', 'unsized', 'split'],
-    'C04': ['overlap', 'overlap', 'flat', 'nested', 'overlap'],
+    'C02': ['flat', 'multi', 'nested', 'nested', 'unsized', 'split', 'nestedx'],
+    'C04': ['overlap', 'overlap', 'flat', 'nested', 'overlap', 'nestedx'],
 }
 PREFIX = {'C01': ['C01_'], 'C02': ['C02_'], 'C04': ['C04_']}
 
@@ -125,6 +125,14 @@ def run_prop(prop, tier, seed, replay=None, make_cases=None):
                     break
             if V:
                 nontrivial.add(c.invocation())
+    if prop == 'C01':
+        # inherent mode: the items of the generated inherent impl are those of the selected block
+        from . import c17
+        icases, istats, inon, iviol = c17.core(rng, 12 if tier == 'quick' else 200)
+        stats['inherent_mode'] = dict(cases=istats['cases'], programs=istats['programs'], values_checked=istats['values_checked'])
+        stats['programs'] += istats['programs']
+        nontrivial |= inon
+        violations += [v for v in iviol if 'expected items' in v['oracle'] or 'does not compile' in v['oracle']]
     if stats['spec_checked'] and stats['oracle_inconclusive'] > max(2, 0.02 * stats['spec_checked']):
         raise cm.HarnessError('the Coq model of trait resolution (RustSem.applicable) disagrees with rustc on %d of %d cases'
                               % (stats['oracle_inconclusive'], stats['spec_checked']))
